@@ -206,7 +206,12 @@ class StmtMixin:
                 if not self.specmode and self.branch(z3.Or(k < -L, k >= L)):
                     raise PyRaise('IndexError', getattr(target, 'lineno', None), 'list assignment index out of range')
                 idx = z3.If(k < 0, L + k, k)
-                new = z3.Concat(z3.SubSeq(base.t, 0, idx), z3.Unit(self.to_val(v)), z3.SubSeq(base.t, idx + 1, L - idx - 1))
+                # pointwise characterisation of the updated list (cheaper for the solver than concat/extract)
+                new = z3.Const(self.fresh('upd'), SeqV)
+                j = z3.Int(self.fresh('j'))
+                self.assume(z3.Length(new) == L)
+                self.assume(new[idx] == self.to_val(v))
+                self.assume(z3.ForAll([j], z3.Implies(z3.And(j >= 0, j < L, j != idx), new[j] == base.t[j])))
                 self.assign(fr, target.value, SSeq(new, 'list', base.elem))
                 return
             raise Unsupported(f'subscript assignment on {base!r}')
